@@ -37,6 +37,8 @@ func checkC03(c *Ctx) {
 	c.R.NotDecided = "conformance of arbitrary user-supplied result payloads to the MCP schema; that exactly one of result/error is present for results produced by user middlewares"
 	c.R.Assumptions = []string{"encoding/json behaves as documented (nil slice -> null, omitempty semantics)", "net/http sends an implicit empty 200 when a handler returns without writing"}
 	c03Version(c)
+	c03EnvelopeType(c)
+	c09DataLineWhole(c, "R-data-line-whole")
 	c03Codes(c)
 	c03Status(c)
 	c03Decode(c)
@@ -2295,4 +2297,164 @@ func c03EncodeFailureAnswered(c *Ctx) {
 		})
 	}
 	c.R.Min("R-encode-failure-answered", 2)
+}
+
+// ---------------------------------------------------------------- R-envelope-type
+// Functions that put "any" message on the wire — an interface{} parameter that they encode and write — emit exactly
+// what they are given. Every library value boxed into that parameter must therefore be one of the four JSON-RPC
+// envelope types (request, response, error, notification; by value or pointer). Handing such a sender an inner payload
+// type (a bare Notification, a result struct) writes a message without "jsonrpc":"2.0" (and without an id).
+func c03EnvelopeType(c *Ctx) {
+	isEnvelope := func(t types.Type) bool {
+		if p, ok := t.(*types.Pointer); ok {
+			t = p.Elem()
+		}
+		n, ok := t.(*types.Named)
+		if !ok || n.Obj().Pkg() == nil || n.Obj().Pkg().Path() != ir.RootPath {
+			return false
+		}
+		for _, m := range msgTypes {
+			if n.Obj().Name() == m {
+				return true
+			}
+		}
+		return false
+	}
+	isLibStruct := func(t types.Type) bool {
+		if p, ok := t.(*types.Pointer); ok {
+			t = p.Elem()
+		}
+		n, ok := t.(*types.Named)
+		if !ok || !ir.InLibrary(n) {
+			return false
+		}
+		_, isStruct := n.Underlying().(*types.Struct)
+		return isStruct
+	}
+	// senders: server-side functions with a writer parameter and an empty-interface parameter that reaches an encoder
+	type sender struct {
+		fn  *ssa.Function
+		idx int
+	}
+	var senders []sender
+	for _, fn := range c.P.LibFns {
+		if clientSide(c, fn) {
+			continue
+		}
+		hasWriter := false
+		for _, p := range fn.Params {
+			if isResponseWriter(p.Type()) || ir.TypeStr(p.Type()) == "io.Writer" {
+				hasWriter = true
+			}
+		}
+		if !hasWriter {
+			continue
+		}
+		for i, p := range fn.Params {
+			it, ok := p.Type().Underlying().(*types.Interface)
+			if !ok || it.NumMethods() != 0 || p.Referrers() == nil {
+				continue
+			}
+			encodes := false
+			seen := map[ssa.Value]bool{}
+			var visit func(v ssa.Value, d int)
+			visit = func(v ssa.Value, d int) {
+				if v.Referrers() == nil || d > 4 || seen[v] {
+					return
+				}
+				seen[v] = true
+				for _, r := range *v.Referrers() {
+					switch y := r.(type) {
+					case *ssa.Call:
+						switch ir.CallName(y) {
+						case "encoding/json.Marshal", "(*encoding/json.Encoder).Encode":
+							encodes = true
+						default:
+							if sc := ir.StaticCallee(y); sc != nil && c.P.IsLib(sc) && d < 2 {
+								for ai, a := range y.Call.Args {
+									if a == v && ai < len(sc.Params) {
+										visit(sc.Params[ai], d+1)
+									}
+								}
+							}
+						}
+					case *ssa.Phi:
+						visit(y, d+1)
+					case *ssa.TypeAssert:
+						// (the asserted value is the same message)
+					}
+				}
+			}
+			visit(p, 0)
+			if encodes {
+				senders = append(senders, sender{fn, i})
+			}
+		}
+	}
+	if len(senders) < 2 {
+		c.R.Break("R-envelope-type: only %d wire senders taking an interface{} message found", len(senders))
+		return
+	}
+	n := 0
+	var judge func(caller *ssa.Function, v ssa.Value, site ssa.CallInstruction, target *ssa.Function, d int)
+	judge = func(caller *ssa.Function, v ssa.Value, site ssa.CallInstruction, target *ssa.Function, d int) {
+		switch x := v.(type) {
+		case *ssa.MakeInterface:
+			t := x.X.Type()
+			if !isLibStruct(t) {
+				return
+			}
+			n++
+			c.R.Check(isEnvelope(t), "R-envelope-type", sprintf("%s handed to %s by %s", ir.TypeStr(t), fname(target), fname(caller)), c.Pos(site.Pos()),
+				"a JSON-RPC envelope type",
+				sprintf("%s hands %s a value of type %s, which that function encodes and writes as it is: not one of the JSON-RPC envelope types, so the message on the wire has no \"jsonrpc\":\"2.0\" member and is not a JSON-RPC 2.0 message", fname(caller), fname(target), ir.TypeStr(t)))
+		case *ssa.Phi:
+			for _, e := range x.Edges {
+				judge(caller, e, site, target, d)
+			}
+		case *ssa.Parameter:
+			if d >= 2 {
+				return
+			}
+			idx := -1
+			for i, q := range caller.Params {
+				if q == x {
+					idx = i
+				}
+			}
+			for _, e := range ir.Callers(c.G, caller) {
+				if e.Site == nil || !c.P.IsLib(e.Caller.Func) {
+					continue
+				}
+				cc := e.Site.Common()
+				ai := idx
+				if cc.IsInvoke() {
+					ai--
+				}
+				if ai >= 0 && ai < len(cc.Args) {
+					judge(e.Caller.Func, cc.Args[ai], e.Site, target, d+1)
+				}
+			}
+		}
+	}
+	for _, s := range senders {
+		for _, e := range ir.Callers(c.G, s.fn) {
+			if e.Site == nil || !c.P.IsLib(e.Caller.Func) {
+				continue
+			}
+			cc := e.Site.Common()
+			ai := s.idx
+			if cc.IsInvoke() {
+				ai--
+			}
+			if ai < 0 || ai >= len(cc.Args) {
+				continue
+			}
+			judge(e.Caller.Func, cc.Args[ai], e.Site, s.fn, 0)
+		}
+	}
+	c.R.Min("R-envelope-type", 6)
+	if n == 0 {
+		c.R.Break("R-envelope-type: no library value boxed into a wire sender's message parameter found")
+	}
 }
